@@ -19,11 +19,13 @@ import (
 // synchronous recording GenericSubscriber: what is observed is the sequence of Publish calls.
 // Oracle: integer reference (no floats).
 
-type c18BlockNotifier struct{ ch chan aggsendertypes.EventNewBlock }
+type c18BlockNotifier struct {
+	ch chan aggsendertypes.EventNewBlock
+}
 
 func (b *c18BlockNotifier) Subscribe(id string) <-chan aggsendertypes.EventNewBlock { return b.ch }
-func (b *c18BlockNotifier) GetCurrentBlockNumber() uint64                            { return 0 }
-func (b *c18BlockNotifier) String() string                                           { return "c18" }
+func (b *c18BlockNotifier) GetCurrentBlockNumber() uint64                           { return 0 }
+func (b *c18BlockNotifier) String() string                                          { return "c18" }
 
 type c18Recorder struct {
 	mu     sync.Mutex
